@@ -682,9 +682,25 @@ def config_inventory():
                     in_array = True
                 continue
             inv.append('Cargo.toml::%s' % l)
-    for extra in ('build.rs', '.cargo/config.toml', '.cargo/config', 'rust-toolchain', 'rust-toolchain.toml', 'fuzz/Cargo.toml'):
-        if os.path.exists(os.path.join(root, extra)) and extra != 'fuzz/Cargo.toml':
+    for extra in ('build.rs', '.cargo/config.toml', '.cargo/config', 'rust-toolchain', 'rust-toolchain.toml'):
+        if os.path.exists(os.path.join(root, extra)):
             inv.append('file::%s' % extra)
+    # the manifests that decide what `minimal_lexical` means for the front-end copies under fuzz/ and
+    # etc/correctness/: the dependency on the crate and the feature forwarding (not the test binaries)
+    for sub in ('fuzz/Cargo.toml', 'etc/correctness/Cargo.toml'):
+        mp = os.path.join(root, sub)
+        if not os.path.exists(mp):
+            inv.append('%s::<missing>' % sub)
+            continue
+        section = ''
+        for l in open(mp):
+            l = re.sub(r'\s+', ' ', l.split('#')[0]).strip()
+            if not l:
+                continue
+            if l.startswith('['):
+                section = l
+            if section in ('[dependencies.minimal-lexical]', '[features]', '[patch.crates-io]', '[replace]') or 'minimal' in l:
+                inv.append('%s::%s::%s' % (sub, section, l))
     return inv
 
 
